@@ -32,7 +32,7 @@ WIDTH_KINDS = {"sigma", "fwhm"}
 POS_KINDS = {"lon", "lat", "colat"}
 # which of the two axes of an ellipse a width describes: the first (a / sx /
 # major) or the second (b / sy / minor)
-AXIS_KINDS = {"ax1", "ax2"}
+AXIS_KINDS = {"ax1", "ax2", "axmixed"}
 # sexagesimal strings: hours:min:sec (right ascension) or deg:min:sec
 SEXA_KINDS = {"hms", "dms"}
 
@@ -1140,8 +1140,28 @@ class UnitLib(Lib):
                              "%s index clamped with the length of the %s "
                              "axis" % (one.axis, "row" if "nrows" in dim
                                        else "column"))
+            # the larger / smaller of the two axes of an ellipse is no
+            # longer "the first axis" or "the second axis": whoever consumes
+            # it with an axis role must also have re-labelled the angle
+            ka = (args[0].kind or frozenset()) & AXIS_KINDS
+            kb = (args[1].kind or frozenset()) & AXIS_KINDS
+            knd = chk.kind
+            # ... when the pair is SORTED, i.e. the function also takes
+            # the other extremum of the same two values (a single max() that
+            # nudges one axis keeps its role)
+            other_fn = "min" if f.id == "max" else "max"
+            pair = sorted(norm(a_) for a_ in n.args)
+            sorted_pair = any(
+                isinstance(c_, ast.Call) and isinstance(c_.func, ast.Name)
+                and c_.func.id == other_fn and len(c_.args) == 2 and
+                sorted(norm(a_) for a_ in c_.args) == pair
+                for c_ in ast.walk(it.fi.node))
+            if ka and kb and ka != kb and sorted_pair:
+                knd = (frozenset(knd or ()) - AXIS_KINDS) | {"axmixed"} | (
+                    ((args[0].kind or frozenset()) &
+                     (args[1].kind or frozenset())) - AXIS_KINDS)
             if base is not None:
-                return base.with_(unit=chk.unit, kind=chk.kind, idx=ix)
+                return base.with_(unit=chk.unit, kind=knd, idx=ix)
             return base
         if isinstance(f, ast.Name) and f.id in ("abs", "min", "max") and args:
             base = super().call(it, n, dotted, recv, args, kwargs, env)
